@@ -119,7 +119,16 @@ func VerifC05_SignVerifyPlain() {
 
 // c05extAd: k is the provider named by the ad (its entry is the "main" entry)
 func c05extAd(k c05key, eps []c05key, mainAt int) *Advertisement {
-	ad := c05ad(k.id.String())
+	var ad *Advertisement
+	if verif_Tier() == 0 {
+		// quick tier: the advertisement's own fields have one shape (symbolic
+		// contents); their shapes are varied by the plain-advertisement harness and,
+		// for extended providers, in the thorough tier
+		ad = &Advertisement{Provider: k.id.String(), PreviousID: c05link("previous"), Entries: c05link("entries"),
+			Addresses: []string{verif_Str("address", 1)}, Metadata: verif_Bytes("metadata", 1), ContextID: verif_Bytes("contextID", 1)}
+	} else {
+		ad = c05ad(k.id.String())
+	}
 	xp := &ExtendedProvider{Override: verif_Bool("override")}
 	for i := 0; i <= len(eps); i++ {
 		if i == mainAt {
